@@ -10,6 +10,10 @@ import itertools
 from props import _access as A
 
 
+CLASS_DOC = ("pair class = which sides carry conditions (N none / S some), order of the conditions, order of the "
+             "levels; triple class = which of x, y, z carry conditions")
+
+
 def run(ctx):
     ctx.level = "other"   # exhaustive tables, but open findings: see MANIFEST text
     ctx.extra["exhaustive"] = True
@@ -95,11 +99,28 @@ def run(ctx):
                    and bool(o.locals & ret.locals),
                    "%s is applied to a map derived from %s, expected the accumulator returned by merge"
                    % (c.name.split("::")[-1], sorted(o.params)), site=b.loc(c.bb), key="C32.0:acc:%s" % c.name.split("::")[-1])
-    M = A.make_M(rows, lt)
-    if not ctx.ob("C32.1", "both-present rows found", M is not None, "no row with the member present in both states",
+    M0 = A.make_M(rows, lt)
+    memo = {}
+
+    def M(x, y, M0=M0):
+        r = memo.get((x, y))
+        if r is None:
+            r = memo[(x, y)] = M0(x, y)
+        return r
+    if not ctx.ob("C32.1", "both-present rows found", M0 is not None, "no row with the member present in both states",
                   site=b.loc(loop.bb), trivial=True):
         return
     levels = (0, 1, 2, 3)
+    import core
+    known = [k for k in core.load_known() if k["property"] == "C32"]
+
+    def sgn(a, b):
+        return "<" if a < b else (">" if a > b else "=")
+
+    def pair_class(x, y):
+        (cx, lx), (cy, ly) = x[2], y[2]
+        shape = ("N" if cx is None else "S") + ("N" if cy is None else "S")
+        return "%s/cond%s/level%s" % (shape, sgn(cx, cy) if shape == "SS" else "-", sgn(lx, ly))
     domains = {
         "no-conditions": [(None, l) for l in levels],
         "ordered-conditions": [(c, l) for c in (None, 0, 1, 2) for l in levels],
@@ -109,18 +130,22 @@ def run(ctx):
         small = A.member_domain(accesses, counters=(0, 1))
         n = 0
         bad_c = bad_i = bad_a = None
+        fail_c, fail_a = set(), set()
         for x in states:
             if M(x, x) != x and bad_i is None:
                 bad_i = (x, M(x, x))
             for y in states:
                 n += 1
-                if M(x, y) != M(y, x) and bad_c is None:
-                    bad_c = (x, y, M(x, y), M(y, x))
+                if M(x, y) != M(y, x):
+                    fail_c.add(min(pair_class(x, y), pair_class(y, x)))
+                    if bad_c is None:
+                        bad_c = (x, y, M(x, y), M(y, x))
         for x, y, z in itertools.product(small, repeat=3):
             n += 1
             if M(M(x, y), z) != M(x, M(y, z)):
-                bad_a = (x, y, z, M(M(x, y), z), M(x, M(y, z)))
-                break
+                fail_a.add("".join("N" if m[2][0] is None else "S" for m in (x, y, z)))
+                if bad_a is None:
+                    bad_a = (x, y, z, M(M(x, y), z), M(x, M(y, z)))
         ctx.evaluations += n
         fmt = "member state = (member_counter, access_counter, (conditions, level))"
         ctx.ob("C32.2", "commutative:%s" % dname, bad_c is None,
@@ -132,6 +157,22 @@ def run(ctx):
         ctx.ob("C32.2", "associative:%s" % dname, bad_a is None,
                "merge step is not associative for %s: x=%s y=%s z=%s: (xy)z=%s x(yz)=%s" % ((dname,) + (bad_a or (0, 0, 0, 0, 0))),
                site=b.loc(loop.bb), key="C32.2:associative:%s" % dname)
+        # The open findings are identified by the input classes that fail today (frozen in known_findings.json,
+        # field `instances`): a failing class that is not listed there is a different violation and is reported.
+        for law, failing in (("commutative", fail_c), ("associative", fail_a)):
+            listed = set()
+            for k in known:
+                if k["key"] == "C32.2:%s:%s" % (law, dname) and k.get("status") == "open":
+                    listed = set(k.get("instances") or [])
+            for cls in sorted(failing - listed):
+                ctx.ob("C32.2", "%s:%s:class %s" % (law, dname, cls), False,
+                       "merge step is not %s for the input class %s (%s), which is not among the classes of the recorded "
+                       "finding %s" % (law, cls, CLASS_DOC, sorted(listed)),
+                       site=b.loc(loop.bb), key="C32.2:%s:%s:class:%s" % (law, dname, cls))
+            ctx.ob("C32.2", "%s:%s:no new failing input class" % (law, dname), not (failing - listed),
+                   "failing classes today %s, recorded %s" % (sorted(failing), sorted(listed)), site=b.loc(loop.bb),
+                   key="C32.2:%s:%s:classes" % (law, dname), trivial=True)
+            ctx.extra.setdefault("failing_classes", {})["%s:%s" % (law, dname)] = sorted(failing)
         ctx.sample({"domain": dname, "member_states": len(states), "cases_enumerated": n})
     ctx.extra["table_rows"] = len(rows)
 
